@@ -26,7 +26,7 @@ set_option maxRecDepth 8192 in
     function are exactly the expected ones, and every expected panic site is a `Res.panic` site of a model -/
 theorem panic_sites_accounted :
     Facts.C19.partialOps = Sites.expectedOps ∧
-    (∀ s ∈ Sites.expectedSites, s ∈ (Dpop.sites ++ Resolver.sites ++ Bitstring.sites ++ Iblt.sites ++ Callback.sites ++ StatusList.sites ++ DidKey.sites ++ DidWeb.sites ++ Cred.sites ++ CredMore.sites ++ Jwx.sites).map (·.2)) := by
+    (∀ s ∈ Sites.expectedSites, s ∈ (Dpop.sites ++ Resolver.sites ++ Bitstring.sites ++ Iblt.sites ++ Callback.sites ++ StatusList.sites ++ DidKey.sites ++ DidWeb.sites ++ Cred.sites ++ CredMore.sites ++ JsonLd.sites ++ Jwx.sites).map (·.2)) := by
   constructor <;> decide
 
 /-- the source today is the repaired source: checked assertions in dpop.go and key.go, nil guards on verification
@@ -1112,6 +1112,58 @@ theorem cred_filter_correct (ms : List String) (creds : List CredMore.FCred) :
 example : CredMore.filterOnDIDMethod CredMore.Cfg.fixed ["web"]
     [⟨some "web", true, [⟨false, some "web"⟩]⟩, ⟨some "nuts", true, []⟩, ⟨none, true, [⟨true, none⟩, ⟨false, some "nuts"⟩]⟩, ⟨none, false, []⟩, ⟨none, true, [⟨false, none⟩]⟩] = [0, 4] := by decide
 example : CredMore.filterOnDIDMethod CredMore.Cfg.fixed [] [⟨some "nuts", false, []⟩, ⟨none, false, []⟩] = [0, 1] := by decide
+
+
+/-! ### jsonld: the recover guard around the third-party JSON-LD processor -/
+
+/-- every function of package jsonld that runs json-gold has a deferred call that recovers IN ITS OWN FRAME, and there are exactly three -/
+theorem fact_jsonld : Sites.jsonldCfg = JsonLd.Cfg.fixed := by decide
+
+/-- No document — whatever json-gold does with it, panics included — makes Canonicalize, ReadBytes or AllFieldsDefined panic; a
+    processor panic is an ERROR (no result is returned). -/
+theorem jsonld_total (i : JsonLd.In) :
+    (∀ s, JsonLd.canonicalize Sites.jsonldCfg i ≠ .panic s ∧ JsonLd.readBytes Sites.jsonldCfg i ≠ .panic s ∧ JsonLd.allFieldsDefined Sites.jsonldCfg i ≠ .panic s) ∧
+    (i.proc = .panic → ∃ e, JsonLd.canonicalize Sites.jsonldCfg i = .err e) ∧
+    (JsonLd.canonicalize Sites.jsonldCfg i = .ok () → i.jsonOk = true ∧ i.proc = .ok) := by
+  rw [fact_jsonld]
+  have h : ∀ site s, JsonLd.guarded .direct site i ≠ .panic s := by
+    intro site s; unfold JsonLd.guarded
+    split
+    · intro h; cases h
+    · split <;> (intro h; cases h)
+  refine ⟨fun s => ⟨h _ s, h _ s, h _ s⟩, ?_, ?_⟩
+  · intro hp
+    unfold JsonLd.canonicalize JsonLd.guarded
+    simp only [JsonLd.Cfg.fixed]
+    split
+    · exact ⟨_, rfl⟩
+    · rw [hp]; exact ⟨_, rfl⟩
+  · intro hk
+    unfold JsonLd.canonicalize JsonLd.guarded at hk
+    simp only [JsonLd.Cfg.fixed] at hk
+    split at hk
+    · cases hk
+    · rename_i hj
+      split at hk
+      · rename_i hp; exact ⟨by simpa using hj, hp⟩
+      · cases hk
+      · cases hk
+
+/-- the guard must recover in the deferred function's own frame: with the SAME helper called from a deferred closure (seeded mutation
+    w8m2: `defer func() { if recoverProcessorPanic(&err); err != nil { result = nil } }()`) a processor panic crashes the caller; so
+    does a helper that no longer calls recover() itself; a closure that calls recover() itself is fine -/
+theorem jsonld_guard_must_be_direct :
+    JsonLd.guardOf ["recoverProcessorPanic"] [("ident", ["recoverProcessorPanic"])] = .direct ∧
+    JsonLd.guardOf ["recoverProcessorPanic"] [("closure:calls", ["recoverProcessorPanic"])] = .nested ∧
+    JsonLd.guardOf [] [("ident", ["recoverProcessorPanic"])] = .absent ∧
+    JsonLd.guardOf ["recoverProcessorPanic"] [("closure:self", [])] = .direct ∧
+    JsonLd.guardOf ["recoverProcessorPanic"] [] = .absent ∧
+    JsonLd.guarded .nested "Canonicalize>ld" ⟨true, .panic⟩ = .panic "Canonicalize>ld" ∧
+    JsonLd.guarded .absent "Canonicalize>ld" ⟨true, .panic⟩ = .panic "Canonicalize>ld" ∧
+    JsonLd.guarded .direct "Canonicalize>ld" ⟨true, .panic⟩ = .err "invalid-document" := by decide
+
+example : JsonLd.canonicalize JsonLd.Cfg.fixed ⟨true, .ok⟩ = .ok () := by decide
+example : JsonLd.canonicalize JsonLd.Cfg.fixed ⟨true, .panic⟩ = .err "invalid-document" := by decide
 
 
 /-! ### crypto/jwx.go JWTKidAlg, ParseJWT, ParseJWS -/
